@@ -12,6 +12,17 @@ import (
 	"golang.org/x/sys/unix"
 )
 
+// sameDevice reports whether st describes a device node of exactly the
+// given type (os.ModeDevice, plus os.ModeCharDevice for character devices)
+// with the given device number.
+func sameDevice(st fs.FileInfo, typ fs.FileMode, rdev int32) bool {
+	if st == nil || st.Mode().Type()&(os.ModeDevice|os.ModeCharDevice) != typ {
+		return false
+	}
+	stt, ok := st.Sys().(*syscall.Stat_t)
+	return ok && int32(stt.Rdev) == rdev
+}
+
 func (rt *Transfer) createDevice(f *File, st fs.FileInfo) error {
 	base := filepath.Base(f.Name)
 	parentDir, err := rt.DestRoot.OpenFile(filepath.Dir(f.Name), 0, 0)
@@ -23,17 +34,27 @@ func (rt *Transfer) createDevice(f *File, st fs.FileInfo) error {
 	mode := f.Mode & rsync.S_IFMT
 	switch mode {
 	case rsync.S_IFCHR:
-		if st != nil && st.Mode().Type()&os.ModeCharDevice != 0 {
-			return nil // file of correct type exists
+		if sameDevice(st, os.ModeDevice|os.ModeCharDevice, f.Rdev) {
+			return nil // same device node exists
+		}
+		if st != nil && st.Mode().Type()&os.ModeDevice != 0 {
+			// A different device node is in the way, replace it.
+			if err := rt.DestRoot.Remove(f.Name); err != nil {
+				return err
+			}
 		}
 		return unix.Mknodat(int(parentDir.Fd()), base, uint32(perm)|syscall.S_IFCHR, int(f.Rdev))
 
 	case rsync.S_IFBLK:
-		if st != nil && (st.Mode().Type()&os.ModeDevice != 0 ||
-			st.Mode().Type()&os.ModeCharDevice != 0) {
-			return nil // file of correct type exists
+		if sameDevice(st, os.ModeDevice, f.Rdev) {
+			return nil // same device node exists
 		}
-
+		if st != nil && st.Mode().Type()&os.ModeDevice != 0 {
+			// A different device node is in the way, replace it.
+			if err := rt.DestRoot.Remove(f.Name); err != nil {
+				return err
+			}
+		}
 		return unix.Mknodat(int(parentDir.Fd()), base, uint32(perm)|syscall.S_IFBLK, int(f.Rdev))
 
 	case rsync.S_IFSOCK:
